@@ -999,15 +999,17 @@ class MaskedSel(SymArray):
         raise ShimMissing("len(MaskedSel) must go through the injected len")
 
     def sym_len(self):
+        if self._m is not None:
+            return self._m.shape[0]
         return self._count()
 
     @property
     def size(self):
-        return self._count()
+        return self.sym_len()
 
     @property
     def shape(self):
-        return (self._count(),)
+        return (self.sym_len(),)
 
     @property
     def ndim(self):
